@@ -25,6 +25,10 @@ def _await_waiter(it, fut, record=True):
     (set_exception TimeoutError), or the caller is cancelled"""
     if record:
         it.ctx.trace.append(("await", fut))
+    zc = it.ctx.ghost.get("zc")
+    if zc is not None and "waiters_at_await" not in it.ctx.ghost:
+        # snapshot of the registry at the suspension point: this is what an advertisement processed now would wake
+        it.ctx.ghost["waiters_at_await"] = list(zc.fields["_waiters"].get("aa:bb:cc:dd:ee:ff", []))
     k = it.ctx.choose(["found", "timeout", "cancelled"])
     it.ctx.ghost["wake"] = k
     if k == "found":
@@ -44,8 +48,10 @@ def _zc(it):
     if known == "known":
         c.fields["discoveries"]["aa:bb:cc:dd:ee:ff"] = d0
     other = it.ctx.choose(["no-other-waiter", "other-waiter"])
+    of = FutureStub("other")
     if other == "other-waiter":
-        c.fields["_waiters"]["aa:bb:cc:dd:ee:ff"] = [FutureStub("other")]
+        c.fields["_waiters"]["aa:bb:cc:dd:ee:ff"] = [of]
+    it.ctx.ghost.update(zc=c, other=other, other_future=of)
     it.ctx.ghost["known"] = known
     it.ctx.ghost["d0"] = d0
     return c
@@ -77,14 +83,20 @@ class ZcFind:
             and len(aw) == 1
             and cf[0] < cl[0] < aw[0]
             and trace[aw[0]][1] is trace[cf[0]][1]
-            and trace[cf[0]][1] in self._waiters["aa:bb:cc:dd:ee:ff"]
+            and trace[cf[0]][1] in ghost["waiters_at_await"]
+            and (ghost["other"] != "other-waiter" or ghost["other_future"] in ghost["waiters_at_await"])
             and trace[cl[0]][1] == timeout
             and trace[cl[0]][3][0] is trace[cf[0]][1]
             and any(e[0] == "timer_cancel" and e[1] is trace[cl[0]][4] for e in trace)
             and result is ghost["discovery"]
         )
 
-    ensures = [known_device_at_once, registered_before_waiting]
+    def other_waiters_stay_registered(self, ghost):
+        """frame: however THIS call ends (woken, timed out, cancelled, answered at once), a future that ANOTHER caller
+        registered for the id is still registered - an advertisement processed later must still wake it"""
+        return ghost["other"] != "other-waiter" or ghost["other_future"] in self._waiters.get("aa:bb:cc:dd:ee:ff", [])
+
+    ensures = [known_device_at_once, registered_before_waiting, other_waiters_stay_registered]
 
     def timeout_is_not_found(ghost, trace, exc):
         cl = [e for e in trace if e[0] == "call_later"]
@@ -94,7 +106,7 @@ class ZcFind:
             and any(e[0] == "timer_cancel" and e[1] is cl[0][4] for e in trace)
         )
 
-    exsures = [timeout_is_not_found]
+    exsures = [timeout_is_not_found, other_waiters_stay_registered]
 
 
 @contract("aiohomekit.zeroconf:ZeroconfController._async_on_timeout", prop="C19")
